@@ -93,6 +93,8 @@ def cases(tier, rng):
     L = 2 if tier == "quick" else 3
     yield {"family": "noloop", "tool": "subprocess", "srcs": [], "params": {}}
     for name in sorted(SCENARIOS):
+        if name.endswith("_huge") and tier == "quick":
+            continue
         yield {"family": "scenario", "tool": name, "srcs": [], "params": {}}
     for name in sorted(CONC):
         yield {"family": "conc", "tool": name, "srcs": [], "params": {}}
@@ -282,6 +284,40 @@ async def _sc_contextmanager():
     return v
 
 
+async def _sc_closed_generator():
+    """contexts of the library that are active inside an async generator which its consumer closes early: GeneratorExit
+    leaves the blocks, and the clean-up of the user's managers / sources (which suspends) must still be AWAITED"""
+    @A.contextmanager
+    async def cm(name):
+        try:
+            yield name
+        finally:
+            await Susp(["u", "cleanup", name])
+
+    class Closeable:
+        async def aclose(self):
+            await Susp(["u", "aclose"])
+
+    async def outer():
+        async with cm(1) as v, A.ExitStack() as st, A.closing(Closeable()):
+            await st.enter_context(cm(2))
+            st.callback(Closeable().aclose)
+            async with A.scoped_iter(_agen_closing()) as it:
+                yield v, await A.anext(it)
+                yield v
+
+    async def _agen_closing():
+        try:
+            yield 7
+            yield 8
+        finally:
+            await Susp(["u", "src-finally"])
+    g = outer()
+    first = await g.__anext__()
+    await g.aclose()
+    return first
+
+
 async def _sc_decorator():
     @A.contextmanager
     async def cm():
@@ -380,11 +416,10 @@ async def _sc_iter_anext():
     return out
 
 
-async def _sc_long_sync_inputs():
+async def _sc_long_sync_inputs(n=10000):
     """LONG all-synchronous inputs (10 000 items, past any plausible internal batch size): every operation still completes
     without suspending once - a periodic "cooperative" checkpoint inside the library would reach the loop as a foreign token"""
     import operator
-    n = 10000
     out = []
     out.append(len(await A.list(range(n))))
     out.append(len(await A.tuple(iter(range(n)))))
@@ -659,7 +694,9 @@ SCENARIOS = {
     "contextmanager": _sc_contextmanager, "decorator": _sc_decorator, "exitstack": _sc_exitstack,
     "closing_nullcontext": _sc_closing_nullcontext, "tee_nolock": lambda: _sc_tee(None), "tee_lock": lambda: _sc_tee(_Lock()),
     "groupby": _sc_groupby, "borrow_scoped": _sc_borrow_scoped, "asynctools": _sc_asynctools, "iter_anext": _sc_iter_anext,
-    "long_sync_inputs": _sc_long_sync_inputs,
+    "long_sync_inputs": _sc_long_sync_inputs, "closed_generator": _sc_closed_generator,
+    # thorough tier, and every run on a tree whose source fingerprint changed (amplified): 300 000 items per operation
+    "long_sync_inputs_huge": lambda: _sc_long_sync_inputs(300000),
 }
 
 
